@@ -3,8 +3,9 @@ C04 — Key rollover is safe in every interleaving and always completes.
 Property theorems only; helper lemmas live in `KrillModel/Ca/Lemmas*.lean`.
 -/
 import KrillModel.Ca.LemmasDomain
+import KrillModel.Ca.LemmasReach
 namespace KM.Props.C04
-open KM.CaK KM.AMap KM.Generated.ApplyDomain
+open KM KM.CaK KM.AMap KM.Generated.ApplyDomain
 
 /-! ## The model's partiality is the source's panic domain -/
 
@@ -25,5 +26,143 @@ example :
     applicable { classes := [(0, Rc.create 9 0 1)] } (.key 0 (.pendingToActive ⟨1, { res := [1] }, false⟩)) = true ∧
     applicable { classes := [(0, Rc.create 9 0 1)] } (.key 0 .activated) = false ∧
     applicable {} (.childKeyRevoked 5 7 1) = false := by decide
+
+/-! ## `process` only emits events that can be applied -/
+
+/-
+Full statement (false on this tree, see `revoke_under_mapping_panics` below – F-C04-1):
+
+  theorem process_emits_applicable (h : Reachable s) (hp : s.ca.process c = .ok evs) :
+      (s.ca.applyAll evs).isSome ∧ ∃ o', s.objs.stepAll evs = .ok o'
+
+The proved statement has the extra hypothesis `RevokeOk s.ca c`: for a revocation request the
+class the child's name is translated to exists and is past `pending`.  Every other command –
+key rolls, received certificates, entitlements, child and configuration commands, parents,
+repository – is covered without restriction.
+-/
+
+/-- For every reachable state and every modelled command, the events `process` returns are
+applied by `apply` without reaching a panic arm or an `unwrap` of `None`, and the pre-save
+listener that maintains the published object sets accepts them. -/
+theorem process_emits_applicable_partial {s : Sys} {c : Cmd} {evs : List Ev} (h : Reachable s)
+    (hok : RevokeOk s.ca c) (hp : s.ca.process c = .ok evs) :
+    (s.ca.applyAll evs).isSome = true ∧ ∃ o', s.objs.stepAll evs = .ok o' := by
+  have hinv := reachable_inv h
+  obtain ⟨s', hrun, _⟩ := readySeq_run hinv (process_readySeq hinv hok hp)
+  obtain ⟨ca', o'⟩ := s'
+  obtain ⟨h1, h2⟩ := runEvs_some_iff.mp hrun
+  exact ⟨by simp [h1], o', h2⟩
+
+/-- The same, stated on the generated table: every emitted event is, at the moment it is
+applied, in the panic-free domain read from the source. -/
+theorem process_emits_in_domain {s : Sys} {c : Cmd} {evs : List Ev} (h : Reachable s)
+    (hok : RevokeOk s.ca c) (hp : s.ca.process c = .ok evs) :
+    ∀ (pre post : List Ev) (e : Ev), evs = pre ++ e :: post →
+      ∃ s1, s.ca.applyAll pre = some s1 ∧ applicable s1 e = true := by
+  intro pre post e hsplit
+  obtain ⟨hsome, _⟩ := process_emits_applicable_partial h hok hp
+  rw [hsplit, applyAll_append] at hsome
+  cases h1 : s.ca.applyAll pre with
+  | none => simp [h1] at hsome
+  | some s1 =>
+    refine ⟨s1, rfl, ?_⟩
+    simp only [h1, Option.bind_some, Ca.applyAll] at hsome
+    rw [← apply_domain_matches_model]
+    cases h2 : s1.apply e with
+    | none => simp [h2] at hsome
+    | some _ => rfl
+
+/-- F-C04-1: with a class-name mapping to a class the parent does not have, a revocation
+request of the child makes `process` return `ChildKeyRevoked` for the unknown class, and
+`apply` unwraps `None` (certauth.rs:391-393).  Reachable state, concrete witness. -/
+def witnessMapped : List Cmd :=
+  [ .repoUpdate [], .addParent 9,
+    .updateEntitlements 9 [⟨0, [1, 2], 100, []⟩] 0 [4],
+    .updateRcvdCert 0 4 { res := [1, 2], na := 100 } 50 [],
+    .childAdd 7 [1, 2],
+    .childCertify 7 0 6 none 60,
+    .childMapping 7 5 0 ]
+
+theorem revoke_under_mapping_panics :
+    ∃ s c evs, Reachable s ∧ s.ca.process c = .ok evs ∧ s.exec c = .panic :=
+  ⟨Sys.run {} witnessMapped, .childRevokeKey 7 0 6,
+    [.childKeyRevoked 7 5 6, .childCerts 5 { removed := [6] }],
+    reachable_run .init _, by decide, by decide⟩
+
+/-- Hence the unrestricted statement is false. -/
+theorem not_process_emits_applicable :
+    ¬ ∀ (s : Sys) (c : Cmd) (evs : List Ev), Reachable s → s.ca.process c = .ok evs →
+      (s.ca.applyAll evs).isSome = true := by
+  intro hall
+  obtain ⟨s, c, evs, hr, hp, hex⟩ := revoke_under_mapping_panics
+  have := hall s c evs hr hp
+  unfold Sys.exec at hex
+  rw [hp] at hex
+  cases ha : s.ca.applyAll evs with
+  | none => rw [ha] at this; cases this
+  | some ca' =>
+    simp only [ha] at hex
+    cases ho : s.objs.stepAll evs <;> simp [ho] at hex
+
+/-- Non-vacuity: the same request without the mapping is stored (both sides accept the events). -/
+example :
+    (match (Sys.run {} (witnessMapped.take 6)).exec (.childRevokeKey 7 0 6) with
+      | .stored evs _ => evs == [.childKeyRevoked 7 0 6, .childCerts 0 { removed := [6] }]
+      | _ => false) = true := by decide
+
+/-! ## Mirror: aggregate key state ↔ published object sets -/
+
+/-- In every reachable state each resource class and its published object sets agree:
+`pending` ↔ no object class, `active`/`rollPending` ↔ `current`, `rollNew` ↔ `staging`,
+`rollOld` ↔ `old`, with the same keys holding the same certificates, and there is no object
+class without a resource class (no key publishes without a certificate held by the aggregate).
+It is preserved by every event batch because every reachable state has it. -/
+theorem mirror {s : Sys} (h : Reachable s) : s.mirrorOk = true := by
+  have hinv := (reachable_inv h).core
+  simp only [Sys.mirrorOk, Bool.and_eq_true, List.all_eq_true]
+  constructor
+  · intro r _
+    have := hinv.cls r
+    cases hg : get s.ca.classes r with
+    | none => rfl
+    | some rc => rw [hg] at this; exact this.1
+  · intro r hr
+    have := hinv.cls r
+    cases hg : get s.ca.classes r with
+    | some rc => rfl
+    | none =>
+      rw [hg] at this
+      simp only [ClsInv] at this
+      have hs := get_isSome_iff_mem_keys.mpr hr
+      rw [this] at hs; cases hs
+
+/-- One batch: a stored command takes a mirrored pair to a mirrored pair. -/
+theorem mirror_step {s : Sys} (h : Reachable s) (c : Cmd) : (s.next c).mirrorOk = true :=
+  mirror (Reachable.step c h)
+
+/-- Keys of one class are pairwise different in every reachable state (what routing a received
+certificate by key identifier relies on). -/
+theorem keys_distinct {s : Sys} (h : Reachable s) (r : Rcn) (rc : Rc) (hg : get s.ca.classes r = some rc) :
+    rc.keys.distinct = true := by
+  have := (reachable_inv h).core.cls r
+  rw [hg] at this; exact this.2.1
+
+/-! ## Single signer -/
+
+/-- In every reachable state only the current key set of a class carries products: the staging
+set (new key before activation) and the old set (old key after activation) publish nothing but
+their manifest and CRL. -/
+theorem single_signer {s : Sys} (h : Reachable s) : s.singleSigner = true := by
+  have hinv := (reachable_inv h).core
+  simp only [Sys.singleSigner, List.all_eq_true]
+  intro r _
+  cases hgo : get s.objs r with
+  | none => rfl
+  | some ok =>
+    have := hinv.cls r
+    rw [hgo] at this
+    cases hg : get s.ca.classes r with
+    | none => rw [hg] at this; simp [ClsInv] at this
+    | some rc => rw [hg] at this; exact this.2.2 ok rfl
 
 end KM.Props.C04
